@@ -19,7 +19,7 @@
 //@dropped the closures handed to transform_state get an explicit parameter type, result name and `ensures` (R-SIG on the closure header: Verus needs a closure's contract written on it); their bodies are the real text
 //@dropped R-TRY (desugaring, as in unit vm_loop): Verus does not apply the `From` conversion of a `?` whose error type differs; the four `?` on a callee with a foreign error type are written out as `match X { Ok(v) => v, Err(e) => return Err(From::from(e)) }`, X carried over verbatim; `optional`: an edited statement goes to Verus as it is
 //@dropped `unsafe fn` markers of transform_state are kept; `InstructionStream: TryFrom<&[u8]>` body (assert_eq! on re-assembled bytecode) is a stand-in, not under contract here
-//@dropped termination / panics INSIDE the callees (units vm_loop, tc_loops, disassemble); VM::new panics when the instruction stream is longer than u32::MAX (its stand-in requires `fits_u32`, which the try_from stand-in guarantees: disassemble rejects BytecodeTooLarge)
+//@dropped termination / panics INSIDE the callees (units vm_loop, tc_loops, disassemble); VM::new panics when the instruction stream is longer than u32::MAX: its stand-in requires `fits_u32`, the try_from stand-in guarantees it for code of at most u32::MAX bytes, and `analyze` has that as a premise (FINDING: 2^32 bytes pass disassemble and panic in VM::new)
 use vstd::prelude::*;
 
 pub mod error {
@@ -133,12 +133,13 @@ pub uninterp spec fn disasm(bytes: Seq<u8>) -> std::result::Result<InstructionSt
 /// the stream is short enough for VM::new (<= u32::MAX instructions)
 pub uninterp spec fn fits_u32(is: InstructionStream) -> bool;
 // A-CALLEE: `InstructionStream::try_from(&[u8])` is a function of the bytes (contract of `disassemble`: unit disassemble, C10); a stream it
-// returns has at most u32::MAX instructions (disassemble rejects longer bytecode with BytecodeTooLarge)
+// returns has one instruction per byte (C10.dis), hence at most u32::MAX instructions IF the input has at most u32::MAX bytes.
+// NOTE (finding, see analyze): disassemble's own guard `u32::try_from(offset)` admits 2^32 bytes (largest offset 2^32-1), one more than VM::new accepts
 impl<'a> TryFrom<&'a [u8]> for InstructionStream {
     type Error = error::disassembly::LocatedError;
     #[verifier::external_body]
     fn try_from(value: &'a [u8]) -> (r: std::result::Result<Self, Self::Error>)
-        ensures r == disasm(value@), r matches Ok(is) ==> fits_u32(is),
+        ensures r == disasm(value@), r matches Ok(is) ==> (value@.len() <= u32::MAX ==> fits_u32(is)),
     { unimplemented!() }
 }
 } // verus!
@@ -444,6 +445,24 @@ pub open spec fn started_vm(c: Contract, vm_config: vm::Config, watchdog: DynWat
         Ok(is) => match vm::vm_new(is, vm_config, watchdog) { Err(_) => None, Ok(m) => Some(m) },
     }
 }
+/// C17: if the VM `analyze` starts reports errors, `r` is exactly those errors (converted by `?` only)
+pub open spec fn execution_error_returned(c: Contract, vm_config: vm::Config, watchdog: DynWatchdog, r: error::Result<StorageLayout>) -> bool {
+    match started_vm(c, vm_config, watchdog) {
+        Some(m) => match vm::exec_res(m) { Err(e) => r == Err::<StorageLayout, error::Errors>(error::from_execs(e)), Ok(_) => true },
+        None => true,
+    }
+}
+/// C17: if execution succeeded and the type checker (built from tc_config and THE watchdog, run on the consumed result of the executed VM) fails, `r` is its error
+pub open spec fn type_checker_error_returned(c: Contract, vm_config: vm::Config, tc_config: tc::Config, watchdog: DynWatchdog, r: error::Result<StorageLayout>) -> bool {
+    match started_vm(c, vm_config, watchdog) {
+        Some(m) => match vm::exec_res(m) {
+            Ok(_) => match tc::run_spec(fresh_checker(tc_config, watchdog), vm::consumed(vm::exec_post(m))).1 {
+                Err(e) => r == Err::<StorageLayout, error::Errors>(error::from_unif(e)),
+                Ok(_) => true },
+            Err(_) => true },
+        None => true,
+    }
+}
 /// THE ANALYSIS: every stage in order, each on what the previous one produced; the first Err (converted by `?` only) is the result
 pub open spec fn analyze_spec(c: Contract, vm_config: vm::Config, tc_config: tc::Config, watchdog: DynWatchdog) -> error::Result<StorageLayout> {
     match disassembly::disasm(contract::code(c)) {
@@ -489,6 +508,11 @@ pub open spec fn analyze_spec(c: Contract, vm_config: vm::Config, tc_config: tc:
 //@extract file=src/extractor/mod.rs path="impl Extractor<state::HasContract>|fn analyze" id=Extractor::analyze props=C01,C13,C17,C03
 //@ret r
 //@spec
+        requires
+            // C01 PREMISE = FINDING: with exactly 2^32 bytes of code (64-bit host) `disassemble` succeeds (every offset 0..2^32-1 fits u32) and
+            // `VM::new` then panics ("Instruction length should not exceed 4294967295": len = 2^32 does not fit u32). Without this premise the
+            // precondition of prepare_vm (VM::new's `fits_u32`) is not provable.
+            contract::code(self.contract).len() <= u32::MAX,
         ensures
             r == analyze_spec(self.contract, self.state.vm_config, self.state.tc_config, self.state.watchdog),   //@ob C13.extractor.analyze.result_is_the_chain_of_all_stages
             r is Ok ==> disassembly::disasm(contract::code(self.contract)) is Ok,                                //@ob C13.extractor.analyze.ok_only_if_disassembly_ok
@@ -496,18 +520,8 @@ pub open spec fn analyze_spec(c: Contract, vm_config: vm::Config, tc_config: tc:
                 && vm::exec_res(m) is Ok
                 && tc::run_spec(fresh_checker(self.state.tc_config, self.state.watchdog), vm::consumed(vm::exec_post(m))).1 == Ok::<StorageLayout, error::unification::Errors>(l)),   //@ob C13.extractor.analyze.layout_only_from_complete_work
             // C17: an Err of VM::execute / of the type checker is what comes back
-            match started_vm(self.contract, self.state.vm_config, self.state.watchdog) {
-                Some(m) => match vm::exec_res(m) { Err(e) => r == Err::<StorageLayout, error::Errors>(error::from_execs(e)), Ok(_) => true },
-                None => true,
-            },                                                    //@ob C17.extractor.analyze.execution_errors_returned
-            match started_vm(self.contract, self.state.vm_config, self.state.watchdog) {
-                Some(m) => match vm::exec_res(m) {
-                    Ok(_) => match tc::run_spec(fresh_checker(self.state.tc_config, self.state.watchdog), vm::consumed(vm::exec_post(m))).1 {
-                        Err(e) => r == Err::<StorageLayout, error::Errors>(error::from_unif(e)),
-                        Ok(_) => true },
-                    Err(_) => true },
-                None => true,
-            },                                                    //@ob C17.extractor.analyze.type_checker_errors_returned
+            execution_error_returned(self.contract, self.state.vm_config, self.state.watchdog, r),                         //@ob C17.extractor.analyze.execution_errors_returned
+            type_checker_error_returned(self.contract, self.state.vm_config, self.state.tc_config, self.state.watchdog, r),   //@ob C17.extractor.analyze.type_checker_errors_returned
 //@end
 
 //@extract file=src/extractor/mod.rs path="impl Extractor<state::HasContract>|fn disassemble" id=Extractor::disassemble props=C01,C13,C03
@@ -527,7 +541,7 @@ self.transform_state(|$1: state::HasContract| -> (cr: error::Result<state::Disas
 //@spec
         ensures
             r == disassemble_spec(self.contract, self.state),     //@ob C13.extractor.disassemble.result
-            r matches Ok(x) ==> disassembly::fits_u32(x.state.bytecode),
+            r matches Ok(x) ==> (contract::code(self.contract).len() <= u32::MAX ==> disassembly::fits_u32(x.state.bytecode)),
 //@end
 }
 
@@ -555,6 +569,9 @@ self.transform_state(|$1: state::DisassemblyComplete| -> (cr: error::Result<stat
             disassembly::fits_u32(self.state.bytecode),
         ensures
             r == prepare_vm_spec(self.contract, self.state),      //@ob C13.extractor.prepare_vm.result
+            r matches Ok(x) ==> vm::vm_new(self.state.bytecode, self.state.vm_config, self.state.watchdog) == Ok::<VM, error::execution::LocatedError>(x.state.vm),   //@ob C03.extractor.prepare_vm.vm_gets_the_configured_limits
+            r matches Ok(x) ==> x.state.tc_config == self.state.tc_config,   //@ob C03.extractor.prepare_vm.tc_config_kept
+            r matches Ok(x) ==> x.state.watchdog == self.state.watchdog,     //@ob C13.extractor.prepare_vm.same_watchdog_kept
 //@end
 }
 
@@ -579,6 +596,9 @@ self.transform_state(|mut $1: state::VMReady| -> (cr: error::Result<state::Execu
 //@spec
         ensures
             r == execute_spec(self.contract, self.state),         //@ob C13.extractor.execute.result
+            r matches Ok(x) ==> x.state.tc_config == self.state.tc_config,   //@ob C03.extractor.execute.tc_config_kept
+            r matches Ok(x) ==> x.state.watchdog == self.state.watchdog,     //@ob C13.extractor.execute.same_watchdog_kept
+            r is Ok <==> vm::exec_res(self.state.vm) is Ok,                  //@ob C17.extractor.execute.ok_iff_vm_execute_ok
 //@end
 }
 
@@ -596,6 +616,8 @@ self.transform_state(|$1: state::ExecutionComplete| -> (cr: error::Result<state:
 //@spec
         ensures
             r == prepare_unifier_spec(self.contract, self.state), //@ob C13.extractor.prepare_unifier.result
+            r.state.engine.config == self.state.tc_config,        //@ob C03.extractor.prepare_unifier.checker_gets_the_configured_limits
+            r.state.engine.watchdog == self.state.watchdog,       //@ob C13.extractor.prepare_unifier.checker_gets_the_same_watchdog
 //@end
 }
 
@@ -620,6 +642,7 @@ self.transform_state(|mut $1: state::InferenceReady| -> (cr: error::Result<state
 //@spec
         ensures
             r == infer_spec(self.contract, self.state),           //@ob C13.extractor.infer.result
+            r is Ok <==> tc::run_spec(self.state.engine, self.state.execution_result).1 is Ok,   //@ob C17.extractor.infer.ok_iff_run_ok
 //@end
 }
 
